@@ -669,7 +669,10 @@ pub fn check(rec: &RunRecord) -> Vec<Violation> {
         // On a clean stop every link that is open must be closed with unlinked (peers keep reading).
         if (clean_end || crashed_end) && rec.agent_ends.first().map(|e| e.is_some()).unwrap_or(false) && info.closed_read.is_none() && linked {
             let reader_ended_early = rec.hist.reader_end.iter().any(|(_, p, why)| p == peer && why.starts_with("io-error"));
-            if !reader_ended_early {
+            // A remote that the runtime itself gave up on earlier (it held no link for the prune delay, or a write to it
+            // failed) is not told anything when the agent stops later.
+            let dropped_by_runtime = rec.hist.disconnects.iter().any(|(_, p, why)| p == peer && (why.contains("RemoteTimedOut") || why.contains("ChannelClosed")));
+            if !reader_ended_early && !dropped_by_runtime {
                 if crashed_end {
                     out.push(Violation::new("C04", "C04.stop_without_unlinked", "agent_failed", format!("peer {peer} lane {lane}: link still open after the agent task failed and the runtime stopped")));
                 } else {
@@ -1029,6 +1032,48 @@ pub fn check(rec: &RunRecord) -> Vec<Violation> {
                             }
                         }
                     }
+                }
+            }
+        }
+    }
+
+    // ---------------- Liveness of requests: a link / sync request that a reliable remote wrote completely to a lane that
+    // exists is answered by quiescence, unless the runtime had legitimately given the remote up (it held no link for the
+    // whole prune delay). "No answer at all" is judged, so races between a request and an unlink do not matter.
+    if let (Some(qs), true, true) = (q, clean_end, sc.fake.is_none() && sc.fake_persist.is_none()) {
+        let agent_up = rec.agent_ends.first().map(|e| e.as_ref().map(|e| e.step > qs).unwrap_or(true)).unwrap_or(false);
+        for peer in sc.peers.iter().filter(|_| agent_up) {
+            let info = peer_info(rec, peer.id);
+            let attached = rec.hist.attached.iter().any(|(_, id)| *id == peer.id);
+            let all_ok = rec.hist.sent.iter().filter(|s| s.peer == peer.id && s.epoch == 0).all(|s| s.ok && s.end <= qs);
+            if !attached || !all_ok || info.closed_read.is_some() || info.closed_write.is_some() || info.write_failed || rec.frozen_peers.contains(&peer.id) || rec.stuck_writers.contains(&peer.id) || peer.one_way {
+                continue;
+            }
+            // Dropped by the runtime: legitimate only after the prune delay (counted from the attachment).
+            let att_ms = rec.hist.attached_ms.iter().find(|(p, _)| *p == peer.id).map(|(_, m)| *m);
+            let dropped = rec.hist.disconnects.iter().find(|(s, p, why)| *p == peer.id && *s <= qs && (why.contains("RemoteTimedOut") || why.contains("ChannelClosed")));
+            if let Some((_, _, why)) = dropped {
+                let gone_ms = rec.hist.disconnect_ms.iter().find(|(p, _)| *p == peer.id).map(|(_, m)| *m);
+                let early = why.contains("RemoteTimedOut") && matches!((att_ms, gone_ms), (Some(a), Some(g)) if g < a + sc.knobs.prune_ms);
+                if !early {
+                    continue;
+                }
+            }
+            // (Value, map and supply lanes; how a command lane treats link and sync requests is not judged.)
+            for lane in ["val", "tval", "map", "bmap", "tmap", "smap", "sup"] {
+                if failed_lanes.contains_key(lane) {
+                    continue;
+                }
+                let links = peer.ops.iter().filter(|o| matches!(o, Op::Link { lane: l } | Op::Sync { lane: l } if l == lane)).count();
+                let syncs = peer.ops.iter().filter(|o| matches!(o, Op::Sync { lane: l } if l == lane)).count();
+                let frames: Vec<&Frame> = rec.hist.frames.iter().filter(|f| f.epoch == 0 && f.peer == peer.id && f.lane == lane).collect();
+                let linked = frames.iter().filter(|f| matches!(f.kind, FrameKind::Linked)).count();
+                let synced = frames.iter().filter(|f| matches!(f.kind, FrameKind::Synced)).count();
+                if links > 0 && linked == 0 {
+                    out.push(Violation::new("C04", "C04.live", "link_never_answered", format!("peer {} lane {lane}: {links} link / sync requests were written completely but no linked frame ever arrived (runtime's view of the remote: {:?})", peer.id, dropped.map(|d| d.2.clone()))));
+                    out.push(Violation::new("C03", "C03.session", "never_linked", format!("peer {} lane {lane}: {links} link / sync requests were written completely but no linked frame ever arrived", peer.id)));
+                } else if syncs > 0 && synced == 0 && !peer.ops.iter().any(|o| matches!(o, Op::Unlink { lane: l } if l == lane)) {
+                    out.push(Violation::new("C03", "C03.session", "never_synced", format!("peer {} lane {lane}: {syncs} sync requests were written completely but no synced frame ever arrived", peer.id)));
                 }
             }
         }
